@@ -85,60 +85,52 @@ Theorem match_false_outside_zone :
     n3_owner r = oh :: zone -> in_zone zone name = false -> nsec3_match H r name = false.
 Proof. exact match_outside. Qed.
 
-(* ---- Cover.  The stated property is
-       in_zone -> (cover r n <-> strictly_between_circular owner hash next)
-   and it is REFUTED on the model of the code: *)
-Theorem cover_iff_refuted :
-  exists o n x, cover_chain o n x = true /\ ~ strictly_between_circular o x n.
-Proof. exact cover_chain_refuted. Qed.
-
-(* what the code does, exactly: the interval is closed at the owner hash when
-   owner hash < next hash *)
-Theorem cover_exact_with_deviation :
+(* ---- Cover: exactly when the name's hash lies strictly between the owner hash
+   and the next hash in circular order (both as the upper-case base32hex texts
+   of the record), inside the zone *)
+Theorem cover_iff :
   forall (H : bytes -> bytes) r name oh z zs,
     n3_owner r = oh :: z :: zs -> in_zone (z :: zs) name = true ->
-    (nsec3_cover H r name = true <->
-     let xh := hash_name H name (n3_alg r) (n3_iter r) (n3_salt r) in
-     strictly_between_circular (owner_hash_text oh) xh (n3_next r) \/
-     (xh = owner_hash_text oh /\ slt (owner_hash_text oh) (n3_next r))).
-Proof. exact cover_exact. Qed.
-
-(* the property holds for every name whose hash differs from the owner hash *)
-Theorem cover_iff_when_hash_differs_from_owner :
-  forall (H : bytes -> bytes) r name oh z zs,
-    n3_owner r = oh :: z :: zs -> in_zone (z :: zs) name = true ->
-    hash_name H name (n3_alg r) (n3_iter r) (n3_salt r) <> owner_hash_text oh ->
+    hash_name H name (n3_alg r) (n3_iter r) (n3_salt r) <> [] ->
     (nsec3_cover H r name = true <->
      strictly_between_circular (owner_hash_text oh)
-       (hash_name H name (n3_alg r) (n3_iter r) (n3_salt r)) (n3_next r)).
-Proof. exact cover_iff_except_owner. Qed.
+       (hash_name H name (n3_alg r) (n3_iter r) (n3_salt r)) (next_hash_text r)).
+Proof. exact Nsec3Proofs.cover_iff. Qed.
 
-(* and with the one-character fix the comparison chain is exactly the property *)
-Theorem cover_fixed_iff :
-  forall o n x, cover_chain_fixed o n x = true <-> strictly_between_circular o x n.
-Proof. exact cover_chain_fixed_spec. Qed.
+(* the comparison chain of Cover alone *)
+Theorem cover_chain_iff :
+  forall o n x, cover_chain o n x = true <-> strictly_between_circular o x n.
+Proof. exact cover_chain_spec. Qed.
 
 Theorem cover_false_outside_zone :
   forall (H : bytes -> bytes) r name oh zone,
     n3_owner r = oh :: zone -> in_zone zone name = false -> nsec3_cover H r name = false.
 Proof. exact cover_outside. Qed.
 
-(* two more deviations of the model of the code (both confirmed on the code):
-   an NSEC3 RR of the root zone (owner = one label) never matches or covers, *)
+(* a name that has no hash (hash algorithm other than SHA-1, undecodable salt,
+   invalid name) is never covered *)
+Theorem cover_false_without_hash :
+  forall (H : bytes -> bytes) r name,
+    hash_name H name (n3_alg r) (n3_iter r) (n3_salt r) = [] -> nsec3_cover H r name = false.
+Proof. exact cover_without_hash. Qed.
+
+Theorem no_hash_for_unsupported_algorithm :
+  forall (H : bytes -> bytes) name ha iter salt, ha <> 1 -> hash_name H name ha iter salt = [].
+Proof. exact hash_name_unsupported. Qed.
+
+(* a name the record matches is not covered by it *)
+Theorem match_excludes_cover :
+  forall (H : bytes -> bytes) r name oh z zs,
+    n3_owner r = oh :: z :: zs ->
+    nsec3_match H r name = true -> nsec3_cover H r name = false.
+Proof. exact match_not_cover. Qed.
+
+(* deviation of the model of the code (known finding C17/Match|Cover/root-zone-owner):
+   an NSEC3 RR of the root zone (owner = one label) never matches or covers *)
 Theorem nsec3_root_zone_never_matches_or_covers :
   forall (H : bytes -> bytes) r name oh,
     n3_owner r = [oh] -> nsec3_match H r name = false /\ nsec3_cover H r name = false.
 Proof. exact root_zone_never. Qed.
-
-(* and with an unsupported hash algorithm every in-zone name is covered by a
-   wrapping or empty interval *)
-Theorem cover_true_for_unsupported_hash_algorithm :
-  forall (H : bytes -> bytes) r name oh z zs,
-    n3_owner r = oh :: z :: zs -> in_zone (z :: zs) name = true ->
-    n3_alg r <> 1 -> owner_hash_text oh <> [] -> n3_next r <> [] ->
-    slt (n3_next r) (owner_hash_text oh) \/ n3_next r = owner_hash_text oh ->
-    nsec3_cover H r name = true.
-Proof. exact cover_unsupported_alg. Qed.
 
 (* ---- validity period: ValidityPeriod(t) is the plain comparison of the two
    32-bit fields with the 64-bit time, for every t *)
@@ -152,21 +144,15 @@ Theorem validity_iff :
     (validity_period i e t = true <-> (Z.of_N i <= t <= Z.of_N e)%Z).
 Proof. exact KeyEncProofs.validity_iff. Qed.
 
-(* in RFC 1982 serial arithmetic the same holds as long as nothing wraps ... *)
+(* for 32-bit times the same holds in RFC 1982 serial arithmetic.  (Across the 2^32 wrap the
+   plain comparison and serial arithmetic differ: an observation outside the property text,
+   see docs/C17.md and KeyEncProofs.validity_serial_wrap_refuted.) *)
 Theorem validity_iff_serial_without_wrap :
   forall i e t,
     (0 <= t < 4294967296)%Z -> i < 4294967296 -> e < 4294967296 ->
     (Z.abs (Z.of_N i - t) < 2147483648)%Z -> (Z.abs (Z.of_N e - t) < 2147483648)%Z ->
     (validity_period i e t = true <-> serial_le (Z.of_N i) t /\ serial_le t (Z.of_N e)).
 Proof. exact validity_serial_nowrap. Qed.
-
-(* ... and is refuted when the validity interval crosses the 32-bit wrap *)
-Theorem validity_serial_wrap_refuted :
-  exists i e t,
-    (serial_dist (Z.of_N i) t < 2147483648)%Z /\ (serial_dist (Z.of_N e) t < 2147483648)%Z /\
-    serial_le (Z.of_N i) t /\ serial_le t (Z.of_N e) /\
-    validity_period i e t = false.
-Proof. exact KeyEncProofs.validity_serial_wrap_refuted. Qed.
 
 (* ---- key encodings *)
 Theorem rsa_public_key_rfc3110_roundtrip :
